@@ -170,9 +170,38 @@ def _h2(reuse_mod):
     orig_try, orig_add = cls.try_reuse, cls.add_glyph
     from vf.oracle import geom
 
+    from picosvg.svg_types import SVGPath as _SVGPath
+
+    orig_round = _SVGPath.round_multiple
+
+    def round_multiple(self_, multiple_of, inplace=False):
+        if _STATE["capture_round"] is not None:
+            _STATE["capture_round"].append(self_.d)
+        return orig_round(self_, multiple_of, inplace=inplace)
+
+    _SVGPath.round_multiple = round_multiple
+
+    def _norm_log(op, self, path, fn):
+        _STATE["capture_round"] = []
+        try:
+            out = fn()
+        finally:
+            pre = _STATE["capture_round"]
+            _STATE["capture_round"] = None
+        if len(LOG.setdefault("norm", [])) < 4000 and self._reuse_tolerance != -1:
+            post = None
+            try:
+                from picosvg.svg_reuse import normalize as _n
+
+                post = _n(_SVGPath(d=path), self._normalize_tolerance).d
+            except Exception:
+                pass
+            LOG["norm"].append({"op": op, "path": path, "pre": pre[0] if pre else None, "post": post, "norm_tol": self._normalize_tolerance, "result": (out.glyph_name if (op == "try" and out is not None) else None)})
+        return out
+
     @functools.wraps(orig_try)
     def try_reuse(self, path):
-        res = orig_try(self, path)
+        res = _norm_log("try", self, path, lambda: orig_try(self, path))
         COUNT["H2.try_reuse"] += 1
         try:
             if self._reuse_tolerance == -1:
@@ -216,7 +245,10 @@ def _h2(reuse_mod):
     @functools.wraps(orig_add)
     def add_glyph(self, glyph_name, glyph_path):
         COUNT["H2.add_glyph"] += 1
-        return orig_add(self, glyph_name, glyph_path)
+        out = _norm_log("add", self, glyph_path, lambda: orig_add(self, glyph_name, glyph_path))
+        if LOG.get("norm"):
+            LOG["norm"][-1]["glyph"] = glyph_name
+        return out
 
     cls.try_reuse = try_reuse
     cls.add_glyph = add_glyph
